@@ -64,28 +64,37 @@ FloatWords == [w \in {"0", "1", "3", "7", "45", "300", "7.5", "0.25"} |->
                  CASE w = "0" -> "0.0" [] w = "1" -> "1.0" [] w = "3" -> "3.0" [] w = "7" -> "7.0"
                    [] w = "45" -> "45.0" [] w = "300" -> "300.0" [] w = "7.5" -> "7.5" [] OTHER -> "0.25"]
 Bad == [t |-> "bad", b |-> FALSE, n |-> 0, s |-> ""]
+(* Every source can also SET an option explicitly to its own default value:  *)
+(* DefWord(n) is the text that spells the default of n (numbers and texts;   *)
+(* booleans are covered by the boolean words, None has no spelling).         *)
+HasDefWord(n) == Default(n).t \in {"int", "float", "str"}
+DefWord(n)    == IF Default(n).t = "int" THEN ToString(Default(n).n) ELSE Default(n).s
+IntOf(n, w)   == IF w \in DOMAIN IntWords THEN I(IntWords[w])
+                 ELSE IF Default(n).t = "int" /\ w = DefWord(n) THEN Default(n) ELSE Bad
+FloatOf(n, w) == IF w \in DOMAIN FloatWords THEN Fl(FloatWords[w])
+                 ELSE IF Default(n).t = "float" /\ w = DefWord(n) THEN Default(n) ELSE Bad
 
 (* value of a text in the configuration file: booleans and numbers are     *)
 (* typed by the option's default; an ill-typed text is Bad                  *)
 FileVal(n, w) ==
     CASE TypeOf(n) = "bool"  -> IF w \in FileTrue THEN B(TRUE) ELSE IF w \in FileFalse THEN B(FALSE) ELSE Bad
-      [] TypeOf(n) = "int"   -> IF w \in DOMAIN IntWords THEN I(IntWords[w]) ELSE Bad
-      [] TypeOf(n) = "float" -> IF w \in DOMAIN FloatWords THEN Fl(FloatWords[w]) ELSE Bad
+      [] TypeOf(n) = "int"   -> IntOf(n, w)
+      [] TypeOf(n) = "float" -> FloatOf(n, w)
       [] OTHER               -> S(w)
 (* value of a text in the environment: "true"/"false" in any case become    *)
 (* booleans for EVERY option, numeric options are coerced afterwards        *)
 EnvVal(n, w) ==
     LET v == IF w \in EnvTrue THEN B(TRUE) ELSE IF w \in EnvFalse THEN B(FALSE) ELSE S(w) IN
     CASE TypeOf(n) = "int"   -> IF v.t = "bool" THEN I(IF v.b THEN 1 ELSE 0)
-                                ELSE IF w \in DOMAIN IntWords THEN I(IntWords[w]) ELSE Bad
+                                ELSE IntOf(n, w)
       [] TypeOf(n) = "float" -> IF v.t = "bool" THEN Fl(IF v.b THEN "1.0" ELSE "0.0")
-                                ELSE IF w \in DOMAIN FloatWords THEN Fl(FloatWords[w]) ELSE Bad
+                                ELSE FloatOf(n, w)
       [] OTHER               -> v
 (* value of a command-line occurrence [name, has, arg] *)
 CliVal(n, c) ==
     CASE CliKind(n) = "flag_true"  -> B(TRUE)
       [] CliKind(n) = "flag_false" -> B(FALSE)
-      [] CliKind(n) = "store_int"  -> IF c.arg \in DOMAIN IntWords THEN I(IntWords[c.arg]) ELSE Bad
+      [] CliKind(n) = "store_int"  -> IntOf(n, c.arg)
       [] CliKind(n) = "optarg"     -> IF c.has THEN S(c.arg) ELSE B(TRUE)
       [] OTHER                     -> S(c.arg)
 
